@@ -349,6 +349,13 @@ func vNewHist(c vCfg) *vHist {
 		handed: map[uint64]int{}, lost: map[uint64]string{}}
 	if c.init != nil {
 		c.init.fill(h.m)
+		// the requests an earlier run left stored were accepted by it: they count as accepted before this history begins
+		for _, it := range c.init.items {
+			if !h.accepted[it[1]] {
+				h.accepted[it[1]] = true
+				h.order = append(h.order, it[1])
+			}
+		}
 	}
 	return h
 }
@@ -1127,6 +1134,64 @@ func TestVerifC01(t *testing.T) {
 		sc0 := g.script(c, nil, 3+rng.Intn(6), out)
 		sc1 := g.script(c, []vInc{{sc0, -1}}, rng.Intn(3), out)
 		vEnumerate(t, out, c, nil, [][]vOp{sc0, sc1}, 0, rng)
+	}
+
+	// (1f) partial re-fit at start-up, followed by a start that finds a dispatched list mixing moved (deleted) and kept (live)
+	// entries: k requests in flight, the queue refilled so that only some of them fit back; the second incarnation makes no
+	// dequeue (so the stored list is not rewritten) and dies at EVERY storage-call boundary or ends cleanly; the drains are the
+	// third and later starts.  Size-function sizer included (then WHICH of the listed requests fits varies).
+	for s := 0; s < vBudget(18, 5); s++ {
+		c := vCfg{capacity: int64(2 + rng.Intn(3)), reqSized: rng.Intn(3) != 0, block: rng.Intn(4) == 0}
+		if !c.reqSized {
+			c.capacity += 2
+		}
+		k := 2 + rng.Intn(2)
+		var sc1 []vOp
+		for i := 0; i < k; i++ {
+			g.nextID++
+			sc1 = append(sc1, off(g.nextID))
+		}
+		for i := 0; i < k; i++ {
+			sc1 = append(sc1, rd)
+		}
+		for i := 0; i < 1+rng.Intn(int(c.capacity)); i++ {
+			g.nextID++
+			sc1 = append(sc1, off(g.nextID))
+		}
+		var sc2 []vOp
+		switch rng.Intn(4) {
+		case 1:
+			g.nextID++
+			sc2 = []vOp{off(g.nextID)}
+		case 2:
+			sc2 = []vOp{{3, 0, 0}}
+		case 3:
+			g.nextID++
+			sc2 = []vOp{off(g.nextID), {3, 0, 0}}
+		}
+		prefix := []vInc{{sc1, -1}}
+		if rng.Intn(2) == 0 {
+			prefix = []vInc{warm, {sc1, -1}}
+		}
+		out.Stat("partial_refit_scenarios", 1)
+		vEnumerate(t, out, c, prefix, [][]vOp{sc2}, 0, rng)
+	}
+
+	// (1g) a start on a dispatched list [0,1,2] with every pattern of deleted / live copies, small capacities (so that refused
+	// and accepted re-puts interleave with the deleted entries)
+	for pat := 0; pat < 8; pat++ {
+		in := &vInit{ri: 3, wi: int64(3 + rng.Intn(2)), si: -1, diSet: true, di: []uint64{0, 1, 2}}
+		for i := uint64(0); i < 3; i++ {
+			if pat&(1<<i) != 0 {
+				in.items = append(in.items, [2]uint64{i, 3000 + uint64(pat)*10 + i})
+			}
+		}
+		for i := uint64(3); i < uint64(in.wi); i++ {
+			in.items = append(in.items, [2]uint64{i, 3000 + uint64(pat)*10 + i})
+		}
+		c := vCfg{capacity: int64(1 + rng.Intn(3)), reqSized: true, init: in, block: rng.Intn(3) == 0}
+		out.Stat("init_di_pattern_stores", 1)
+		vEnumerate(t, out, c, nil, [][]vOp{nil}, 0, rng)
 	}
 
 	// (1c) the Done of a request exported in several pieces (refCountDone), also when a flush carries pieces of
